@@ -490,3 +490,46 @@ func compositeLen(p *Prog, v *types.Var) int {
 	}
 	return -1
 }
+
+// compositeConsts: the constant values of the elements of a package-level composite literal (strings / numbers as
+// written after constant folding), or nil if the variable is not initialised by a literal of constants.
+func compositeConsts(p *Prog, v *types.Var) []string {
+	for _, pk := range p.Pkgs {
+		if pk.Types != v.Pkg() {
+			continue
+		}
+		for _, f := range pk.Syntax {
+			for _, d := range f.Decls {
+				gd, ok := d.(*ast.GenDecl)
+				if !ok {
+					continue
+				}
+				for _, sp := range gd.Specs {
+					vs, ok := sp.(*ast.ValueSpec)
+					if !ok {
+						continue
+					}
+					for i, nm := range vs.Names {
+						if pk.TypesInfo.Defs[nm] != v || i >= len(vs.Values) {
+							continue
+						}
+						cl, ok := vs.Values[i].(*ast.CompositeLit)
+						if !ok {
+							return nil
+						}
+						var out []string
+						for _, e := range cl.Elts {
+							tv, ok := pk.TypesInfo.Types[e]
+							if !ok || tv.Value == nil {
+								return nil
+							}
+							out = append(out, tv.Value.ExactString())
+						}
+						return out
+					}
+				}
+			}
+		}
+	}
+	return nil
+}
